@@ -39,7 +39,7 @@ def oracle_grammar(case):
     refmodel.raise_mine(problems, ("C05",))
     classes = dc.classify(case, text, exp)
     nt = any(not k.endswith(":ok") and k != "notification:result" for k in exp.kinds)
-    return Info(nt=nt, classes=classes, key=(text, case["version"], case["jsonclass"], case["mode"]),
+    return Info(nt=nt, classes=classes, key=(text, case["version"], case["jsonclass"], case["mode"], case.get("handlers")),
                 sample={"body": text[:300], "version": case["version"], "mode": case["mode"], "reply": (out or "")[:200]})
 
 
